@@ -33,7 +33,11 @@ PENDING_REASON = {}
 PROPS = {
     "C01": dict(
         thm=["Bgpfu.Thm.C01"],
-        ops=[("plan", ["prop=C01", "variant=fixed"])],
+        # evlevel=1: per distinct configuration also the event-level rows (harness/src/instev.rs): `instev render`
+        # (harness renderer == Lean renderGetConfig, event for event), `instev readev` (real reader == event-level
+        # model on the tokenised reply), `instev hyp` (hypotheses of the event-level theorems for the real libraries);
+        # op `instev`: reply documents outside the agent's own output through `instev readev`
+        ops=[("plan", ["prop=C01", "variant=fixed", "evlevel=1"]), ("instev", [])],
         level_text="Theorems over the model of the diff/patch pipeline and the reference Junos model, no bound on policies, ranges, "
                    "names or runs: every state in the closure of the empty configuration under runs satisfies a decidable "
                    "well-formedness predicate (reachable_agentState); every such state is read back successfully and faithfully "
@@ -42,13 +46,44 @@ PROPS = {
                    "(structurally and under first-match route evaluation) and ends in reject, no unmanaged policy is left, "
                    "and the result is again such a state (run_converges, run_accepts_exactly); a further run with unchanged "
                    "inputs is semantically a no-op (run_idempotent); induction over any sequence of runs (runs_history). "
-                   "Counter-examples for the pinned writer/readers (readback_pinned_cex, rerun_pinned_cex, raw_names_cex).",
-        level_note="The theorems are for Cfg.fixed (a family empty before and after is not written; names unescaped). The real "
+                   "Counter-examples for the pinned writer/readers (readback_pinned_cex, rerun_pinned_cex, raw_names_cex). "
+                   "Read-back at event level: the reader is also modelled loop by loop on quick-xml event lists "
+                   "(Model/FetchInstalled.lean: Maybe<Installed>, Term, TermFrom, RouteFilter incl. the choice-value loop, "
+                   "try_into_ranges, under the generic Policies<T> loops) and renderGetConfig (Spec/InstalledGrammar.lean) gives "
+                   "the get-config reply of a configuration as an event list with all read_text spans; for EVERY configuration, "
+                   "on its reply document the event-level reader equals the abstract reader -- same policies and range sets or "
+                   "both fail, covering term without accept / from / family, name != family, unknown family, duplicate family "
+                   "term, malformed range, duplicate policy, policy without reject skipped (readInstalledEv_render; "
+                   "readInstalledEv_refines gives the real ReadError classes); hence readback_total and run_converges hold with "
+                   "the event-level reader in place of the abstract one (readback_total_ev, run_converges_ev); the model never "
+                   "runs out of fuel on ANY event list (readInstalledEv_total).",
+        level_note="The theorems are for Cfg.fixed (a family empty before and after is not written; names unescaped). The "
+                   "event-level theorems take the library calls (quick_xml unescape, generic-ip Prefix / PrefixLength from_str) "
+                   "as oracles constrained, on the texts of the configuration, to what Policy.readRange assumes of them, and a "
+                   "text encoding (UTF-8) constrained to be injective on the compared strings and to commute with trimming on "
+                   "the family values; both hypotheses are decidable and evaluated for the real libraries on every generated "
+                   "configuration (`instev hyp` rows); unescape_satisfiable discharges the one clause over all texts. The real "
                    "code is tied to the model by the correspondence run; the C01 predicate is additionally evaluated on the "
                    "state produced by the implementation's own payloads (incl. read-back through the real reader and a second "
                    "plan), which is where defects D9 (empty <term>) and D15-names show up as violations.",
-        rule=POLICY_RULE,
-        trusted=POLICY_TRUSTED,
+        rule=POLICY_RULE + "; with evlevel=1 every distinct configuration generated or reached (first 1000 quick / 5000 thorough) is "
+                           "rendered by the harness, tokenised with quick-xml and compared event for event (incl. every read_text span, "
+                           "i.e. the whole text) with renderGetConfig, the real read_installed is compared with the event-level model "
+                           "on those events, and the theorem hypotheses are evaluated with the real libraries' answers. Op `instev`: 4 "
+                           "base replies (dual-stack, two single-family policies, managed + policy without reject, no policy) each with "
+                           "ONE mutation -- 19 snippets (comment, whitespace, NBSP, text, CDATA, PI, unknown empty/non-empty element, second "
+                           "name / then-accept / then-reject / family / from / address / choice-ident / choice-value) at every tag boundary "
+                           "and in front of every end tag, every element deleted / duplicated / cleared / written as empty element, "
+                           "69 substring replacements incl. <accept></accept> and <accept /> (family and term-name values padded, escaped, "
+                           "changed; choice-ident changed; malformed / out-of-range length ranges and addresses; foreign namespaces; "
+                           "attributes; second policy-options / configuration; XML declaration; prefixed rpc-reply), truncation at "
+                           "every 7th byte -- plus random pairs of mutations; a case is distinct by the document text",
+        trusted=[t for t in POLICY_TRUSTED if not t.startswith("harness-side rendering") and not t.startswith("the event-level XML readers")] + [
+            "generic XML-to-element-list conversion of the emitted payloads (quick-xml)",
+            "quick-xml tokenisation, namespace resolution and read_text spans of the reply documents are observed by the harness "
+            "(xmltok.rs) and handed to the event-level model; the harness renderer of get-config replies is NOT trusted (compared with "
+            "renderGetConfig event for event); that Junos emits this document shape (choice-ident/choice-value form) is Appendix B's reading",
+        ],
         assumptions=["evaluated ranges satisfy the PrefixRange type invariant (EvValid)",
                      "policy names are unique in a Junos configuration",
                      "commit / rollback behaviour is C04's subject: C01 is about the configuration after all loads"],
